@@ -31,13 +31,33 @@
  *      with writes (hshare), two SDstart sessions of one path (sd2), two GRstart on two Hopen ids (gr2), one vdata attached through
  *      two Hopen ids (vs2): the same data set / image / vdata selected through both, read (and written) alternately, released in
  *      every interleaving, every release must return what the attach counts demand, the other handle must keep working.
+ *   E  FAILED entry points leave every other handle of the process untouched (atom.c is compiled into this engine, so the use count and the
+ *      number of atoms of every atom group can be read: white box):
+ *        T ids openbad <path 10+kind> <acc> <os|magic|dd>  => fail      Hopen of a path that cannot be opened, while 0, 1, 2 or many file ids
+ *              and access ids are live: magic number + DD block header cut short / ndds <= 0 / next-block offset beyond the end of the file /
+ *              DD list cut / a later block of the chain cut / cyclic chain (TIED: stage dd = HTPstart fails), file shorter than the magic number,
+ *              wrong magic, a directory, a path through a regular file, a name that is too long, no permission, any access mode
+ *        T ids groups                                      => <FIDGROUP use>,<atoms>,<AIDGROUP use>,<atoms>,<DDGROUP use>   (relative to the case start)
+ *        T ids startaccess <h> 0 <write>                   => fail      on the damaged special elements of file 4 (tag 1600: unknown special code,
+ *              chunk table / link table / compressed data element missing, description record beyond the end of the file)
+ *      Oracles after every failed call: use counts and atoms of ALL atom groups as before (ids-failed-call-changes-*), every live file id and
+ *      access id still designates its own object and delivers its data (ids-failed-call-disturbs-live-handle:*), the DD group has at least one
+ *      use per open file (ids-dd-group-use-below-open-files), one DD atom per access record (ids-dd-atoms-differ-from-access-records); at the end
+ *      everything is released (ids-release-failed:*) and a fresh open/close cycle works.  Scenario `failstart` (forked child): H / V / VS / GR / AN /
+ *      SD handles of good files live, then SDstart / Hopen+Vstart+Vattach+VSattach / GRstart+GRselect / ANstart+ANselect / DFR8 / DFSD / DFAN
+ *      on files whose DD blocks or whose higher-level structures (every descriptor of a Vgroup / Vdata / RIG / NDG / ... beyond the end of the
+ *      file) cannot be read.
  */
+#include "hdf_priv.h"
+#include "atom_priv.h"
+#include "hdf/src/atom.c" /* resolved through -I<REPO>: atom_group_list is private to atom.c; the library's atom.o is then not linked */
 #include "hdf.h"
 #include "mfhdf.h"
 #include "hfile_priv.h"
 #include "hchunks_priv.h"
 #include "hk.h"
 #include "workloads.h"
+#include "damage.h"
 #include <sys/wait.h>
 #include <sys/mman.h>
 
@@ -53,8 +73,10 @@ static const char kinds[] = "OLLCOKCOLZX";
 #define NSER 11
 #define SPLEN 40
 static uint8 ser_data[NSER][64]; static int ser_len[NSER];
-static char paths[4][800];
-static int open_cnt[4];
+#define NPATH 5            /* 0 rich, 1 2 plain, 3 does not exist, 4 plain + damaged special elements (tag 1600) */
+static char paths[NPATH][800];
+static int open_cnt[NPATH];
+static int a_tag[MAXH], a_r[MAXH];   /* element an ordinary access id was started on (0 = not tracked: it walks) */
 
 /* ------------------------------------------------------------------ forked probe: 0 = FAIL returned, 1 = accepted, 2 = crashed */
 static int probe_begin(void) { fflush(stdout); fflush(stderr); return (int)fork(); }
@@ -92,7 +114,7 @@ static int pick_a(void) { int c = (int)hk_range(0, 99); if (naid == 0 || c < 3) 
 
 static int new_aid(int32 id, int f, int ref, int wr)
 {
-    int a = naid++; aidv[a] = id; a_live[a] = 1; a_f[a] = f; a_ref[a] = ref; a_wr[a] = wr; a_stale[a] = 0; a_unsafe[a] = 0;
+    int a = naid++; aidv[a] = id; a_live[a] = 1; a_f[a] = f; a_ref[a] = ref; a_wr[a] = wr; a_stale[a] = 0; a_unsafe[a] = 0; a_tag[a] = 0; a_r[a] = 0;
     return a;
 }
 /* does the CALLER still have an access element attached that it started through file id number f? */
@@ -266,9 +288,13 @@ static int fid_writable(int f) { filerec_t *fr = (f < nfid && f_live[f]) ? HAato
 /* the caller has ended access element a (a real Hendaccess of a live id was made).  The chunk cache of a chunked element is shared
    by the access records of one file id; its page-in/page-out cookie is the access record that opened the element FIRST
    (known finding ids-shared-special:chunk-cache-cookie-is-first-accrec): once that one is gone the others are not read in process */
+/* an external element: ONE buffered stream on the external file per information record, i.e. per file id; x_dirty[f] = bytes were written through
+   the stream of file id number f and the stream is still open (they reach the external file when the LAST access id that shares it is ended) */
+static int x_dirty[MAXH];
 static void mark_ended(int a)
 {
     a_live[a] = 0;
+    if (a_ref[a] > 0 && kinds[a_ref[a] - 1] == 'X' && a_f[a] < MAXH) { int shared = 0; for (int q = 0; q < naid; q++) if (a_live[q] && a_f[q] == a_f[a] && a_ref[q] == a_ref[a]) shared = 1; if (!shared) x_dirty[a_f[a]] = 0; }
     if (is_chunked(a_ref[a]) && a_creator[a]) for (int q = 0; q < naid; q++) if (a_live[q] && a_f[q] == a_f[a] && a_ref[q] == a_ref[a]) a_unsafe[q] = 1;
 }
 
@@ -289,7 +315,8 @@ static int sp_start(int f, int ref, int write)
     if (kinds[ref - 1] == 'C') for (int q = 0; q < naid; q++) if (q != a && a_live[q] && a_ref[q] == ref && a_wrote[q]) a_stale[a] = 1;
     /* an external element: one buffered stream per information record (per file id); what was written through a stream that is still
        open may not be in the file yet, and a stream that has buffered the old bytes keeps delivering them to everyone who shares it */
-    if (kinds[ref - 1] == 'X') for (int q = 0; q < naid; q++) if (q != a && a_live[q] && a_ref[q] == ref && ((a_f[q] != f && a_wrote[q]) || (a_f[q] == f && a_stale[q]))) a_stale[a] = 1;
+    /* (the writer itself may be ended already: its bytes stay in the stream as long as another access id of ITS file id shares it) */
+    if (kinds[ref - 1] == 'X') for (int q = 0; q < naid; q++) if (q != a && a_live[q] && a_ref[q] == ref && ((a_f[q] != f && (a_wrote[q] || (a_f[q] < MAXH && x_dirty[a_f[q]]))) || (a_f[q] == f && a_stale[q]))) a_stale[a] = 1;
     if (!(f < nfid && f_live[f])) hk_fail("ids-stale-accepted:Hstartaccess", "Hstartaccess on a released / never issued file id succeeds");
     hk_stat(creator ? "sp_start_first" : "sp_start_same_fid", 1);
     for (int q = 0; q < naid; q++) if (q != a && a_live[q] && a_f[q] != f && a_ref[q] == ref && f < nfid && a_f[q] < nfid && f_path[a_f[q]] == f_path[f]) { hk_stat("sp_start_other_fid", 1); break; }
@@ -322,7 +349,7 @@ static void sp_write(int a)
     /* a compressed element keeps coder state and buffers per access record: the others (and this one) are not compared any more */
     if (k == 'C') for (int q = 0; q < naid; q++) if (a_live[q] && a_ref[q] == a_ref[a]) a_stale[q] = 1;
     /* an external element: one buffered stream per information record, i.e. per file id */
-    if (k == 'X') for (int q = 0; q < naid; q++) if (a_live[q] && a_ref[q] == a_ref[a] && a_f[q] != a_f[a]) a_stale[q] = 1;
+    if (k == 'X') { if (a_f[a] < MAXH) x_dirty[a_f[a]] = 1; for (int q = 0; q < naid; q++) if (a_live[q] && a_ref[q] == a_ref[a] && a_f[q] != a_f[a]) a_stale[q] = 1; }
     hk_stat("sp_writes", 1);
 }
 /* Hendaccess of a live access id: must succeed */
@@ -390,6 +417,148 @@ static void shared_block(void)
     /* every access element of the block is ended: each of its file ids closes unless the case has other elements attached through it */
     for (int n = 0; n < 8; n++) { int f = ids[hk_range(0, nid - 1)]; if (f_live[f]) { t_counts(f); do_close(f); } }
     hk_stat("shared_blocks", 1);
+}
+
+/* ------------------------------------------------------------------ E: FAILED entry points leave every other handle alone */
+typedef struct { int use[MAXGROUP], atoms[MAXGROUP]; } gsnap_t;
+static const char *grp_name[MAXGROUP] = {"DDGROUP", "AIDGROUP", "FIDGROUP", "VGIDGROUP", "VSIDGROUP", "GRIDGROUP", "RIIDGROUP", "BITIDGROUP", "ANIDGROUP"};
+static gsnap_t g_base;      /* at the start of the case */
+static int dd_atoms_kept;   /* DD atoms kept by failed Hstartaccess calls on existing special elements in this process (the source as it is: statistic) */
+/* (a group whose use count is 0 is destroyed: its record stays allocated with the old number of atoms, the atoms are gone) */
+static void gsnap(gsnap_t *s) { for (int g = 0; g < (int)MAXGROUP; g++) { atom_group_t *p = atom_group_list[g]; s->use[g] = p ? (int)p->count : 0; s->atoms[g] = (p && p->count > 0) ? (int)p->atoms : 0; } }
+/* after a call that returned FAIL: nothing may have been registered, released, taken or given back in ANY atom group.  The source as it is
+ * (statistics, not failures; nothing observable follows from either): a failed HTPstart keeps the use of the DD group it took
+ * (may_keep_dd_use), a failed start of an EXISTING special element keeps the DD atom HTPselect registered (may_keep_dd_atom) */
+static int gcheck(const gsnap_t *b, const char *api, int may_keep_dd_use, int may_keep_dd_atom)
+{
+    gsnap_t n; gsnap(&n); char key[128]; int bad = 0;
+    for (int g = 0; g < (int)MAXGROUP; g++) {
+        int du = n.use[g] - b->use[g], da = n.atoms[g] - b->atoms[g];
+        if (g == DDGROUP && may_keep_dd_use && du == 1) { hk_stat("failed_open_keeps_dd_use", 1); du = 0; }
+        if (g == DDGROUP && may_keep_dd_atom && da == 1) { hk_stat("failed_special_start_keeps_dd_atom", 1); dd_atoms_kept++; da = 0; }
+        if (du != 0) { snprintf(key, sizeof key, "ids-failed-call-changes-group-use:%s", api); bad++;
+            hk_fail(key, "a FAILED %s changes the use count of atom group %s from %d to %d%s", api, grp_name[g], b->use[g], n.use[g], du < 0 ? " (a use that belongs to the handles that are open is given away)" : ""); }
+        if (da != 0) { snprintf(key, sizeof key, "ids-failed-call-changes-atoms:%s", api); bad++;
+            hk_fail(key, "a FAILED %s changes the number of atoms in group %s from %d to %d (%s)", api, grp_name[g], b->atoms[g], n.atoms[g], da > 0 ? "something stays registered that nobody can release" : "an atom of a live handle is gone"); }
+    }
+    return bad;
+}
+static int files_open(void) { int n = 0; for (int p = 0; p < NPATH; p++) n += open_cnt[p] > 0; return n; }
+/* the tied line, and what must hold of the DD group whatever the model says */
+static void t_groups(void)
+{
+    gsnap_t n; gsnap(&n);
+    int dduse = n.use[DDGROUP] - g_base.use[DDGROUP], ddat = n.atoms[DDGROUP], aidat = n.atoms[AIDGROUP] - g_base.atoms[AIDGROUP];
+    printf("T ids groups => %d,%d,%d,%d,%d\n", n.use[FIDGROUP], n.atoms[FIDGROUP] - g_base.atoms[FIDGROUP], n.use[AIDGROUP], aidat, dduse);
+    if (dduse < files_open()) hk_fail("ids-dd-group-use-below-open-files", "the DD atom group has %d use(s) for %d open file(s): it is destroyed, with the DD id of every access element, while files are still open", dduse, files_open());
+    /* every access record holds one DD atom; more are there only where failed starts of special elements kept theirs (they go when the group is destroyed) */
+    if (ddat < aidat || ddat > n.atoms[AIDGROUP] + dd_atoms_kept) hk_fail("ids-dd-atoms-differ-from-access-records", "%d DD atoms for %d access records of this case (%d in the process; %d kept by failed starts of special elements so far)", ddat, aidat, n.atoms[AIDGROUP], dd_atoms_kept);
+    hk_stat("groups_lines", 1);
+}
+/* every live file id and access id still designates its own object and delivers its data */
+static void sp_read(int a);
+static void verify_live(const char *after)
+{
+    int nf = 0, na = 0;
+    for (int f = 0; f < nfid; f++) if (f_live[f]) { char *nm = NULL; intn acc = 0, att = 0; nf++;
+        if (Hfidinquire(fidv[f], &nm, &acc, &att) == FAIL || Hnumber(fidv[f], DFTAG_WILDCARD) == FAIL)
+            hk_fail("ids-failed-call-disturbs-live-handle:file-id-rejected", "after %s a live file id (path %d) is no longer accepted (%d file ids, %d access ids live)", after, f_path[f], nf, naid);
+        else if (nm == NULL || strcmp(nm, paths[f_path[f]]) != 0)
+            hk_fail("ids-failed-call-disturbs-live-handle:file-id-wrong-object", "after %s a live file id of path %d designates the file '%s'", after, f_path[f], nm ? nm : "(null)"); }
+    for (int a = 0; a < naid; a++) if (a_live[a]) { int32 fid = FAIL, len = 0; uint16 tg = 0, rf = 0; int f = a_f[a]; na++;
+        if (!(f < nfid && f_live[f])) continue;   /* its file id was closed under it (a source without the per-id test of Hclose) */
+        if (Hinquire(aidv[a], &fid, &tg, &rf, &len, NULL, NULL, NULL, NULL) == FAIL) {
+            hk_fail("ids-failed-call-disturbs-live-handle:access-id-rejected", "after %s a live access id (started through a file id of path %d that is still open) is no longer accepted", after, f_path[f]); continue; }
+        int wt = a_ref[a] > 0 ? 1500 : a_tag[a], wr = a_ref[a] > 0 ? a_ref[a] : a_r[a];
+        if (fid != fidv[f] || (wt > 0 && ((tg & ~0x4000) != wt || rf != wr))) {   /* a special element reports its tag with the special bit */
+            hk_fail("ids-failed-call-disturbs-live-handle:access-id-wrong-object", "after %s a live access id designates (%d,%d) of file id %d instead of (%d,%d) of file id %d", after, (int)tg, (int)rf, (int)fid, wt, wr, (int)fidv[f]); continue; }
+        long before = hk_nfail;
+        if (a_ref[a] > 0) sp_read(a);
+        else if (a_tag[a] == 1000 && (a_r[a] == 1 || a_r[a] == 2) && !a_wr[a]) { uint8 exp[300], buf[32]; wl_fill(exp, 300, a_r[a]); int pos = (int)hk_range(0, 60);
+            if (Hseek(aidv[a], pos, DF_START) == FAIL || Hread(aidv[a], 24, buf) != 24 || memcmp(buf, exp + pos, 24)) hk_fail("ids-failed-call-disturbs-live-handle:access-id-data", "after %s a live access id no longer delivers the bytes of its element (1000,%d)", after, a_r[a]); }
+        if (hk_nfail != before) hk_fail("ids-failed-call-disturbs-live-handle:access-id-data", "after %s the data of a live access id cannot be read as before", after);
+    }
+    hk_stat("verify_live_handles", nf + na);
+    hk_stat(nf + na == 0 ? "failed_call_with_0_live" : nf == 1 ? "failed_call_with_1_file_id" : nf == 2 ? "failed_call_with_2_file_ids" : "failed_call_with_3plus_file_ids", 1);
+}
+
+/* files on which Hopen must fail (made when first used in the case, from the bytes of the rich file) */
+static char badp[DMG_NKINDS][800]; static int bad_stage[DMG_NKINDS], bad_made[DMG_NKINDS];
+static dmg_file_t bad_tmpl; static int bad_tmpl_ok;
+static int bad_get(int k, int kind)
+{
+    if (bad_made[kind]) return bad_stage[kind];
+    bad_made[kind] = 1; bad_stage[kind] = -1;
+    if (!bad_tmpl_ok) return -1;
+    char nm[64]; snprintf(nm, sizeof nm, "ids%d_bad%d.hdf", k, kind); snprintf(badp[kind], sizeof badp[kind], "%s", hk_tmp(nm));
+    int st = dmg_make_unopenable(kind, &bad_tmpl, paths[1], badp[kind], sizeof badp[kind], (unsigned long)hk_next());
+    if (st >= 0 && kind == DMG_CYCLE) { /* the only kind on which a reader can fail to come back: tried in a child first */
+        int r; DMG_RETURNS(r, 10, Hopen(badp[kind], DFACC_READ, 0));
+        if (r == 1) hk_fail("ids-failed-open-does-not-return", "Hopen of a file whose DD block chain comes back to a block with registered descriptors does not return within 10 s");
+        if (r == 2) hk_fail("ids-failed-open-crashes", "Hopen of a file with a cyclic DD block chain crashes (forked child)");
+        if (r != 0) st = -1; }
+    bad_stage[kind] = st; return st;
+}
+static void op_openbad(int k)
+{
+    int kind = (int)hk_range(0, DMG_NKINDS - 1), st = bad_get(k, kind);
+    if (st < 0) { kind = (int)hk_range(0, DMG_DDCUT); st = bad_get(k, kind); if (st < 0) return; }
+    int c = (int)hk_range(0, 99), acc = c < 50 ? DFACC_READ : c < 78 ? DFACC_RDWR : c < 92 ? DFACC_WRITE : 8;
+    gsnap_t b; gsnap(&b); fflush(stdout);
+    int32 id = Hopen(badp[kind], acc, 0);
+    printf("T ids openbad %d %d %s => ", 10 + kind, acc, dmg_stage_tok[st]);
+    if (id != FAIL) { printf("opened\n"); hk_fail("ids-unopenable-file-opened", "Hopen(acc %d) succeeds on a file that cannot be opened (%s)", acc, dmg_kind_name[kind]); Hclose(id); return; }
+    printf("fail\n");
+    gcheck(&b, "Hopen", st == 2 && acc != 8, 0);
+    { char nm[64]; snprintf(nm, sizeof nm, "openbad_%s", dmg_kind_name[kind]); hk_stat(nm, 1); }
+    t_groups(); verify_live("a failed Hopen");
+}
+
+/* file 4: a plain file plus special elements of tag 1600 that cannot be started.  O / C (refs 9, 10) are intact. */
+/* (description records that are cut short are not made: HCIread_header / HLPstread / HMCIstaccess decode what a short Hread left in the buffer -
+   crafted-input robustness, not handle safety) */
+static const char spbad_kinds[] = "LKCKLLKCOC";
+#define NSPDMG 8
+#define SPDMG_COMP_DATA_MISSING 8
+static const char *spbad_what[NSPDMG] = {"linked: unknown special code", "chunked: unknown special code", "compressed: unknown special code", "chunked: chunk table Vdata missing",
+    "linked: block table missing", "linked: description record beyond the end of the file", "chunked: description record beyond the end of the file", "compressed: compressed data element missing"};
+static int mk_elem(int32 fid, uint16 tag, uint16 ref, char kind, const uint8 *data, int len);
+static int build_spbad(const char *path)
+{
+    uint8 d[64]; wl_fill(d, 64, 9);
+    if (prep_h(path) == FAIL) return FAIL;
+    int32 fid = Hopen(path, DFACC_RDWR, 0); if (fid == FAIL) return FAIL;
+    for (int i = 0; spbad_kinds[i]; i++) if (mk_elem(fid, 1600, (uint16)(i + 1), spbad_kinds[i], d, 40) == FAIL) { Hclose(fid); return FAIL; }
+    if (Hclose(fid) == FAIL) return FAIL;
+    dmg_file_t f; if (dmg_load(path, &f) != 0) return FAIL;
+    int ok = 1; dmg_dd_t *x, *c;
+#define SPDD(r) dmg_find(&f, 1600 | 0x4000, r)
+    for (int r = 1; r <= 3; r++) if ((x = SPDD(r))) dmg_put(f.b + x->off, 2, 0x7f70 + r); else ok = 0;
+    if ((x = SPDD(4)) && (c = dmg_find(&f, DFTAG_VH, (int)dmg_be(f.b + x->off + 25, 2)))) dmg_set_tag(&f, c, 1701); else ok = 0;   /* chk_tbl_ref: code 2, length 4, version 1, 4 x int32, chk_tbl_tag 2 */
+    if ((x = SPDD(5)) && (c = dmg_find(&f, DFTAG_LINKED, (int)dmg_be(f.b + x->off + 14, 2)))) dmg_set_tag(&f, c, 1702); else ok = 0;  /* link_ref: code 2, 3 x int32 */
+    if ((x = SPDD(6))) dmg_set_off(&f, x, f.n + 64); else ok = 0;
+    if ((x = SPDD(7))) dmg_set_off(&f, x, f.n + 64); else ok = 0;
+    if ((x = SPDD(8)) && (c = dmg_find(&f, DFTAG_COMPRESSED, (int)dmg_be(f.b + x->off + 8, 2)))) dmg_set_tag(&f, c, 1703); else ok = 0;  /* comp_ref: code 2, version 2, length 4 */
+#undef SPDD
+    ok = ok && dmg_save(path, f.b, f.n) == 0; dmg_free(&f);
+    return ok ? SUCCEED : FAIL;
+}
+/* Hstartaccess on a damaged special element through file id number f (live, released or never issued) */
+static void op_startbad(int f)
+{
+    int ref = (int)hk_range(1, NSPDMG), wr = fid_writable(f) && hk_chance(25); char hb[16]; tokf(hb, f);
+    if (ref == SPDMG_COMP_DATA_MISSING) wr = 0;   /* started for writing the coder makes a new data element: that start succeeds, by design */
+    gsnap_t b; gsnap(&b); fflush(stdout);
+    int32 id = Hstartaccess(F(f), 1600, (uint16)ref, wr ? DFACC_RDWR : DFACC_READ);
+    printf("T ids startaccess %s 0 %d => ", hb, wr);
+    if (id != FAIL) { printf("opened\n"); hk_fail("ids-unreadable-element-accessed", "Hstartaccess succeeds on a special element that cannot be started (%s)", spbad_what[ref - 1]); Hendaccess(id); return; }
+    printf("fail\n");
+    if (ref == SPDMG_COMP_DATA_MISSING && f < nfid && f_live[f]) { gsnap_t n; gsnap(&n);
+        /* the coder of a compressed element is started AFTER the access id is registered: a failure there must take the id and the attach count back */
+        if (n.atoms[AIDGROUP] != b.atoms[AIDGROUP]) { hk_fail("ids-failed-start-leaves-access-element:comp-model-start", "a FAILED Hstartaccess on a compressed element whose data element (DFTAG_COMPRESSED) cannot be started leaves %d access element(s) registered and attached: the file can never be closed", n.atoms[AIDGROUP] - b.atoms[AIDGROUP]); b.atoms[AIDGROUP] = n.atoms[AIDGROUP]; g_base.atoms[AIDGROUP] += 1; } }
+    gcheck(&b, "Hstartaccess", 0, f < nfid && f_live[f]);
+    hk_stat("startbad", 1);
+    t_groups(); verify_live("a failed Hstartaccess");
 }
 
 /* ------------------------------------------------------------------ D: scenarios in a forked child with a file of their own */
@@ -581,9 +750,151 @@ static void scen_vs2(const char *p)
     recreate_check(p);
 }
 
+/* FAILED starts of the higher interfaces while handles of every interface are live on good files.  Everything in one forked child. */
+typedef struct { int32 fa, fb, a1, a2, vs, vg, gr, ri, an, ann, sd, sds; int vstarted; char g[900], h2[900]; } fs_t;
+#define FS_DISTURBED(...) scen_fail("live-handle-disturbed", __VA_ARGS__)
+static void fs_verify(const fs_t *h, const char *after)
+{
+    uint8 exp[600], buf[600]; char nm[300]; int32 fid; uint16 t, r;
+    if (h->fa != FAIL) { char *fn = NULL; intn acc, att; if (Hfidinquire(h->fa, &fn, &acc, &att) == FAIL || Hnumber(h->fa, DFTAG_WILDCARD) == FAIL || !fn || strcmp(fn, h->g)) FS_DISTURBED("after %s: the file id of the good file is rejected or designates another file", after); }
+    if (h->fb != FAIL) { char *fn = NULL; intn acc, att; if (Hfidinquire(h->fb, &fn, &acc, &att) == FAIL || !fn || strcmp(fn, h->h2)) FS_DISTURBED("after %s: the file id of the second good file is rejected or designates another file", after); }
+    if (h->a1 != FAIL) { wl_fill(exp, 300, 1);
+        if (Hinquire(h->a1, &fid, &t, &r, NULL, NULL, NULL, NULL, NULL) == FAIL || fid != h->fa || t != 1000 || r != 1) FS_DISTURBED("after %s: the access id of (1000,1) is rejected or designates another element", after);
+        else if (Hseek(h->a1, 10, DF_START) == FAIL || Hread(h->a1, 60, buf) != 60 || memcmp(buf, exp + 10, 60)) FS_DISTURBED("after %s: the access id of (1000,1) no longer delivers its bytes", after); }
+    if (h->a2 != FAIL) { wl_fill(exp, 300, 2);
+        if (Hinquire(h->a2, &fid, &t, &r, NULL, NULL, NULL, NULL, NULL) == FAIL || fid != h->fb || t != 1000 || r != 2) FS_DISTURBED("after %s: the access id of (1000,2) of the second file is rejected or designates another element", after);
+        else if (Hseek(h->a2, 50, DF_START) == FAIL || Hread(h->a2, 100, buf) != 100 || memcmp(buf, exp + 50, 100)) FS_DISTURBED("after %s: the access id of (1000,2) no longer delivers its bytes", after); }
+    if (h->vs != FAIL) { wl_fill(exp, 600, 5);
+        if (VSgetname(h->vs, nm) == FAIL || strcmp(nm, "table")) FS_DISTURBED("after %s: the vdata id is rejected or designates another vdata", after);
+        else if (VSseek(h->vs, 0) == FAIL || VSread(h->vs, buf, 20, FULL_INTERLACE) != 20 || memcmp(buf, exp, 240)) FS_DISTURBED("after %s: the vdata id no longer delivers its records", after); }
+    if (h->vg != FAIL) { if (Vgetname(h->vg, nm) == FAIL || strcmp(nm, "group") || Vntagrefs(h->vg) != 2) FS_DISTURBED("after %s: the vgroup id is rejected or designates another vgroup", after); }
+    if (h->ri != FAIL) { int32 nc, nt, il, dm[2], na, st[2] = {0, 0}, ed[2] = {5, 4}; wl_fill(exp, 600, 6);
+        if (GRgetiminfo(h->ri, nm, &nc, &nt, &il, dm, &na) == FAIL || strcmp(nm, "img")) FS_DISTURBED("after %s: the image id is rejected or designates another image", after);
+        else if (GRreadimage(h->ri, st, NULL, ed, buf) == FAIL || memcmp(buf, exp, 60)) FS_DISTURBED("after %s: the image id no longer delivers its pixels", after); }
+    if (h->ann != FAIL) { if (ANannlen(h->ann) != 9 || ANreadann(h->ann, nm, 10) == FAIL || strncmp(nm, "label-one", 9)) FS_DISTURBED("after %s: the annotation id is rejected or delivers another text", after); }
+    if (h->sds != FAIL) { int32 rk, dm[H4_MAX_VAR_DIMS], nt, na, st[2] = {0, 0}, ed[2] = {4, 6}; int16 v[24]; int bad = 0;
+        if (SDgetinfo(h->sds, nm, &rk, dm, &nt, &na) == FAIL || strcmp(nm, "temp")) FS_DISTURBED("after %s: the data set id is rejected or designates another data set", after);
+        else { if (SDreaddata(h->sds, st, NULL, ed, v) == FAIL) bad = 1; else for (int i = 0; i < 24; i++) if (v[i] != (int16)(i * 3 - 7)) bad = 1;
+            if (bad) FS_DISTURBED("after %s: the data set id no longer delivers its values", after); } }
+}
+/* after an attempt on a damaged file (failed, or succeeded and released in full): every atom group as before */
+static void fs_same(const gsnap_t *b, const char *api)
+{
+    gsnap_t n; gsnap(&n); char key[128];
+    for (int g = 0; g < (int)MAXGROUP; g++) {
+        int du = n.use[g] - b->use[g], da = n.atoms[g] - b->atoms[g];
+        if (g == DDGROUP && du > 0) { hk_stat("failed_open_keeps_dd_use", du); du = 0; }
+        if (g == DDGROUP && da > 0) { hk_stat("failed_special_start_keeps_dd_atom", da); da = 0; }
+        if (du != 0) { snprintf(key, sizeof key, "ids-failed-call-changes-group-use:%s", api); hk_fail(key, "scenario failstart: %s on a damaged file changes the use count of atom group %s from %d to %d", api, grp_name[g], b->use[g], n.use[g]); }
+        if (da != 0) { snprintf(key, sizeof key, "ids-failed-call-changes-atoms:%s", api); hk_fail(key, "scenario failstart: %s on a damaged file changes the number of atoms in group %s from %d to %d", api, grp_name[g], b->atoms[g], n.atoms[g]); }
+    }
+}
+static void scen_failstart(const char *p)
+{
+    fs_t h; memset(&h, 0, sizeof h); h.fa = h.fb = h.a1 = h.a2 = h.vs = h.vg = h.gr = h.ri = h.an = h.ann = h.sd = h.sds = FAIL;
+    char d[900], src[900]; snprintf(h.g, sizeof h.g, "%s.good", p); snprintf(h.h2, sizeof h.h2, "%s.plain", p); snprintf(d, sizeof d, "%s.dmg", p); snprintf(src, sizeof src, "%s.src", p);
+    if (prep_rich(h.g) == FAIL || prep_h(h.h2) == FAIL || prep_rich(src) == FAIL) { scen_fail("build", "files not built"); return; }
+    dmg_file_t t; if (dmg_load(src, &t) != 0) { scen_fail("build", "DD list of the rich file not read"); return; }
+    /* the interfaces take their atom groups once, for the life of the process */
+    { int32 f0 = Hopen(h.g, DFACC_READ, 0); Vstart(f0); Vend(f0); int32 g0 = GRstart(f0); GRend(g0); int32 n0 = ANstart(f0); ANend(n0); Hclose(f0); int32 s0 = SDstart(h.g, DFACC_READ); SDend(s0); }
+    gsnap_t base; gsnap(&base);
+    int mask = (int)hk_range(1, 63);
+    if (hk_chance(25)) mask = 1 << hk_range(0, 5);          /* exactly one other handle family live */
+    if (mask & 0x1d) h.fa = Hopen(h.g, hk_chance(50) ? DFACC_READ : DFACC_RDWR, 0);
+    if (mask & 1) { h.a1 = Hstartread(h.fa, 1000, 1); uint8 tb[50]; if (h.a1 != FAIL) Hread(h.a1, 50, tb); }
+    if (mask & 2) { h.fb = Hopen(h.h2, DFACC_READ, 0); h.a2 = h.fb == FAIL ? FAIL : Hstartread(h.fb, 1000, 2); }
+    if (mask & 4) { Vstart(h.fa); h.vstarted = 1; h.vs = VSattach(h.fa, VSfind(h.fa, "table"), "r"); if (h.vs != FAIL) VSsetfields(h.vs, "a,b"); h.vg = Vattach(h.fa, Vfind(h.fa, "group"), "r"); }
+    if (mask & 8) { h.gr = GRstart(h.fa); h.ri = h.gr == FAIL ? FAIL : GRselect(h.gr, GRnametoindex(h.gr, "img")); }
+    if (mask & 16) { h.an = ANstart(h.fa); h.ann = h.an == FAIL ? FAIL : ANselect(h.an, 0, AN_DATA_LABEL); }
+    if (mask & 32) { h.sd = SDstart(h.g, DFACC_READ); h.sds = h.sd == FAIL ? FAIL : SDselect(h.sd, SDnametoindex(h.sd, "temp")); }
+    if (((mask & 0x1d) && h.fa == FAIL) || ((mask & 1) && h.a1 == FAIL) || ((mask & 2) && h.a2 == FAIL) || ((mask & 4) && (h.vs == FAIL || h.vg == FAIL)) || ((mask & 8) && h.ri == FAIL) || ((mask & 16) && h.ann == FAIL) || ((mask & 32) && h.sds == FAIL)) {
+        scen_fail("build", "handles on the good files not obtained (mask %d)", mask); return; }
+    fs_verify(&h, "nothing");
+    int natt = (int)hk_range(3, 7);
+    for (int it = 0; it < natt; it++) {
+        /* the damaged file of this round */
+        int variant = (int)hk_range(0, 9), unopenable = 0; char what[200]; unlink(d);
+        if (variant < 5) { static const int ks[] = {DMG_HDRCUT, DMG_NDDS0, DMG_NDDSNEG, DMG_NEXTPAST, DMG_NEXTCUT, DMG_DDCUT, DMG_BLK2CUT, DMG_MAGIC, DMG_SHORT}; int kd = HK_PICK(ks);
+            if (dmg_make_unopenable(kd, &t, h.h2, d, sizeof d, (unsigned long)hk_next()) < 0) continue;
+            unopenable = 1; snprintf(what, sizeof what, "a file that cannot be opened (%s)", dmg_kind_name[kd]); }
+        else { /* opens at the H level; the descriptors of its higher-level structures point beyond the end of the file */
+            unsigned char *b = malloc((size_t)t.n); memcpy(b, t.b, (size_t)t.n); int all = variant < 7, hit = 0;
+            for (int i = 0; i < t.ndd; i++) if (dmg_is_structure_tag(t.dd[i].tag) && (all || hk_chance(50))) { dmg_put(b + t.dd[i].pos + 4, 4, t.n + 16 + (long)hk_range(0, 4000)); hit++; }
+            dmg_save(d, b, t.n); free(b); snprintf(what, sizeof what, "a file with %d unreadable structure descriptors", hit); }
+        gsnap_t s; gsnap(&s); int which = (int)hk_range(0, 7); const char *api = "?";
+        if (!unopenable && (which == 5 || which == 6)) which = (int)hk_range(0, 3);   /* DFSD / DFAN on unreadable structures: epilogue (known findings) */
+        SLOG("failstart round %d variant %d call %d mask %d", it, variant, which, mask);
+        switch (which) {
+            case 0: { api = "SDstart"; int32 sd = SDstart(d, hk_chance(70) ? DFACC_READ : DFACC_RDWR);
+                if (sd != FAIL) { int32 nd = 0, na = 0; SDfileinfo(sd, &nd, &na); for (int i = 0; i < nd && i < 8; i++) { int32 s1 = SDselect(sd, i); if (s1 != FAIL) { int32 st[2] = {0, 0}, ed[2] = {1, 1}; int32 v[4]; SDreaddata(s1, st, NULL, ed, v); MUST0(SDendaccess(s1), "SDendaccess of a data set of the damaged file"); } }
+                    MUST0(SDend(sd), "SDend of the damaged file"); if (unopenable) scen_fail("unopenable-file-opened", "SDstart succeeds on %s", what); } } break;
+            case 1: case 2: case 3: { int32 fd = Hopen(d, DFACC_READ, 0); api = which == 1 ? "Vstart/Vattach/VSattach" : which == 2 ? "GRstart/GRselect" : "ANstart/ANselect";
+                if (fd == FAIL) { api = "Hopen"; break; }
+                if (unopenable) scen_fail("unopenable-file-opened", "Hopen succeeds on %s", what);
+                if (which == 1 && Vstart(fd) != FAIL) { int32 ref = -1; int n = 0;
+                    while ((ref = Vgetid(fd, ref)) != FAIL && n++ < 8) { int32 v = Vattach(fd, ref, "r"); if (v != FAIL) { char nm[300]; Vgetname(v, nm); MUST0(Vdetach(v), "Vdetach of a vgroup of the damaged file"); } }
+                    ref = -1; n = 0; while ((ref = VSgetid(fd, ref)) != FAIL && n++ < 8) { int32 v = VSattach(fd, ref, "r"); if (v != FAIL) { char nm[300]; VSgetname(v, nm); MUST0(VSdetach(v), "VSdetach of a vdata of the damaged file"); } }
+                    MUST0(Vend(fd), "Vend of the damaged file"); }
+                if (which == 2) { int32 g2 = GRstart(fd); if (g2 != FAIL) { int32 ni = 0, na = 0; GRfileinfo(g2, &ni, &na);
+                        for (int i = 0; i < ni && i < 6; i++) { int32 r2 = GRselect(g2, i); if (r2 != FAIL) { uint8 px[64]; int32 st[2] = {0, 0}, ed[2] = {1, 1}; GRreadimage(r2, st, NULL, ed, px); MUST0(GRendaccess(r2), "GRendaccess of an image of the damaged file"); } }
+                        MUST0(GRend(g2), "GRend of the damaged file"); } }
+                if (which == 3) { int32 n2 = ANstart(fd); if (n2 != FAIL) { int32 c4[4] = {0, 0, 0, 0}; if (ANfileinfo(n2, &c4[0], &c4[1], &c4[2], &c4[3]) != FAIL) {
+                            for (int ty = 0; ty < 4; ty++) for (int i = 0; i < c4[ty] && i < 4; i++) { static const ann_type tys[4] = {AN_FILE_LABEL, AN_FILE_DESC, AN_DATA_LABEL, AN_DATA_DESC}; int32 a_ = ANselect(n2, i, tys[ty]); if (a_ != FAIL) { char tx[64]; ANreadann(a_, tx, 60); MUST0(ANendaccess(a_), "ANendaccess of an annotation of the damaged file"); } } }
+                        MUST0(ANend(n2), "ANend of the damaged file"); } }
+                { gsnap_t m; gsnap(&m);   /* (an access element left behind by the failed start is reported below, by its root cause) */
+                  if (m.atoms[AIDGROUP] == s.atoms[AIDGROUP]) MUST0(Hclose(fd), "Hclose of the damaged file after everything started on it was released"); } } break;
+            case 4: { api = "DFR8getdims"; int32 x, y; int pal; DFR8restart(); DFR8getdims(d, &x, &y, &pal); } break;
+            case 5: { api = "DFSDgetdims"; int rk; int32 sz[8]; DFSDrestart(); DFSDgetdims(d, &rk, sz, 8); } break;
+            case 6: { api = "DFANgetlablen"; DFANclear(); DFANgetlablen(d, 1000, 1); } break;
+            default: { api = "Hishdf"; Hishdf(d); } break;
+        }
+        { /* the two ways a failed start is known to leave something behind, by root cause; what they leave cannot be released by anybody, so the scenario ends */
+          gsnap_t n; gsnap(&n); int da = n.atoms[AIDGROUP] - s.atoms[AIDGROUP], df = n.atoms[FIDGROUP] - s.atoms[FIDGROUP];
+          if (!unopenable && which <= 2 && da > 0) { hk_fail("ids-failed-start-leaves-access-element:Load_vfile", "scenario failstart: %s on %s fails and leaves %d access element(s) attached (Load_vfile returns without ending its walking access element when a Vgroup / Vdata header cannot be read): the file can never be closed", api, what, da); return; }
+          if (!unopenable && which == 0 && df > 0) { hk_fail("ids-failed-start-leaves-file-open:SDstart", "scenario failstart: SDstart on %s fails and leaves the file open under an id nobody has (%d file id(s) more than before)", what, df); return; } }
+        fs_same(&s, api);
+        { char after[300]; snprintf(after, sizeof after, "%s on %s", api, what); fs_verify(&h, after); }
+        hk_stat("failstart_attempts", 1);
+    }
+    /* the normal release of everything, leaves first, in any order */
+    { int32 *leaf[7] = {&h.a1, &h.a2, &h.vs, &h.vg, &h.ri, &h.ann, &h.sds}; int order[7] = {0, 1, 2, 3, 4, 5, 6};
+      for (int i = 6; i > 0; i--) { int j = (int)hk_range(0, i), x = order[i]; order[i] = order[j]; order[j] = x; }
+      for (int i = 0; i < 7; i++) { int w = order[i]; if (*leaf[w] == FAIL) continue;
+          switch (w) { case 0: case 1: MUST0(Hendaccess(*leaf[w]), "Hendaccess of a live access id"); break; case 2: MUST0(VSdetach(h.vs), "VSdetach of a live vdata id"); break; case 3: MUST0(Vdetach(h.vg), "Vdetach of a live vgroup id"); break;
+                       case 4: MUST0(GRendaccess(h.ri), "GRendaccess of a live image id"); break; case 5: MUST0(ANendaccess(h.ann), "ANendaccess of a live annotation id"); break; default: MUST0(SDendaccess(h.sds), "SDendaccess of a live data set id"); break; }
+          *leaf[w] = FAIL; }
+      int o2[4] = {0, 1, 2, 3}; for (int i = 3; i > 0; i--) { int j = (int)hk_range(0, i), x = o2[i]; o2[i] = o2[j]; o2[j] = x; }
+      for (int i = 0; i < 4; i++) switch (o2[i]) { case 0: if (h.vstarted) MUST0(Vend(h.fa), "Vend"); break; case 1: if (h.gr != FAIL) MUST0(GRend(h.gr), "GRend of a live GR id"); break;
+          case 2: if (h.an != FAIL) MUST0(ANend(h.an), "ANend"); break; default: if (h.sd != FAIL) MUST0(SDend(h.sd), "SDend of a live SD id"); break; }
+      if (h.fa != FAIL) MUST0(Hclose(h.fa), "Hclose of the good file after everything below it was released");
+      if (h.fb != FAIL) MUST0(Hclose(h.fb), "Hclose of the second good file"); }
+    /* back to the state before anything was opened */
+    { gsnap_t n; gsnap(&n);
+      for (int g = 0; g < (int)MAXGROUP; g++) {
+          if (n.atoms[g] - base.atoms[g] != 0 && !(g == DDGROUP && n.atoms[g] > base.atoms[g])) hk_fail("ids-state-retained-after-release:atoms", "scenario failstart: after the release of every handle group %s holds %d atoms (%d before anything was opened)", grp_name[g], n.atoms[g], base.atoms[g]);
+          if (n.use[g] < base.use[g] || (g != DDGROUP && n.use[g] != base.use[g])) hk_fail("ids-state-retained-after-release:group-use", "scenario failstart: after the release of every handle group %s has %d uses (%d before anything was opened)", grp_name[g], n.use[g], base.use[g]); }
+      int32 f1 = Hopen(h.g, DFACC_READ, 0); uint8 b1[400];
+      if (f1 == FAIL || Hgetelement(f1, 1000, 1, b1) != 100 || Hclose(f1) == FAIL) scen_fail("reopen", "a fresh Hopen / Hgetelement / Hclose cycle of the good file fails after everything was released");
+      int32 s1 = SDstart(h.g, DFACC_READ); if (s1 == FAIL || SDend(s1) == FAIL) scen_fail("reopen", "a fresh SDstart / SDend cycle of the good file fails after everything was released"); }
+    /* epilogue (what these leave behind nobody can release): the single-file interfaces on a file whose structures cannot be read */
+    { unsigned char *b = malloc((size_t)t.n); memcpy(b, t.b, (size_t)t.n);
+      for (int i = 0; i < t.ndd; i++) if (dmg_is_structure_tag(t.dd[i].tag)) dmg_put(b + t.dd[i].pos + 4, 4, t.n + 16 + (long)hk_range(0, 4000));
+      unlink(d); dmg_save(d, b, t.n); free(b);
+      gsnap_t s, n; gsnap(&s); int sdfirst = hk_chance(50);
+      for (int i = 0; i < 2; i++) { int sdcall = (i == 0) == sdfirst; long r;
+          if (sdcall) { int rk; int32 sz[8]; DFSDrestart(); r = DFSDgetdims(d, &rk, sz, 8); } else { DFANclear(); r = DFANgetlablen(d, 1000, 1); }
+          gsnap(&n);
+          if (r == FAIL && (n.atoms[FIDGROUP] != s.atoms[FIDGROUP] || n.atoms[AIDGROUP] != s.atoms[AIDGROUP])) {
+              hk_fail(sdcall ? "ids-failed-start-leaves-file-open:DFSDIopen" : "ids-failed-start-leaves-file-open:DFANIlablen", "scenario failstart: %s on a file whose structures cannot be read fails and leaves %d file id(s) and %d access element(s) behind",
+                      sdcall ? "DFSDgetdims" : "DFANgetlablen", n.atoms[FIDGROUP] - s.atoms[FIDGROUP], n.atoms[AIDGROUP] - s.atoms[AIDGROUP]); break; }
+          hk_stat("failstart_single_file_calls", 1); } }
+    dmg_free(&t);
+    if (!getenv("HK_KEEP")) { unlink(h.g); unlink(h.h2); dmg_remove(DMG_HDRCUT, d); unlink(src); }
+}
+
 static void run_scenario(int k, int which)
 {
-    static const char *names[] = {"hshare", "sd2", "gr2", "vs2"}; static void (*fns[])(const char *) = {scen_hshare, scen_sd2, scen_gr2, scen_vs2};
+    static const char *names[] = {"hshare", "sd2", "gr2", "vs2", "failstart"}; static void (*fns[])(const char *) = {scen_hshare, scen_sd2, scen_gr2, scen_vs2, scen_failstart};
     static int serial; char nm[64]; snprintf(nm, sizeof nm, "ids%d_s%d_%s.hdf", k, serial++, names[which]);
     const char *p = hk_tmp(nm); unlink(p);
     if (!scen_flag) { scen_flag = mmap(NULL, sizeof(int), PROT_READ | PROT_WRITE, MAP_SHARED | MAP_ANONYMOUS, -1, 0); if (scen_flag == MAP_FAILED) { scen_flag = NULL; return; } }
@@ -602,36 +913,46 @@ static void run_scenario(int k, int which)
 static void run_case(int k)
 {
     char nm[64];
-    for (int i = 0; i < 4; i++) { snprintf(nm, sizeof nm, "ids%d_%d.hdf", k, i); snprintf(paths[i], sizeof paths[i], "%s", hk_tmp(nm)); unlink(paths[i]); open_cnt[i] = 0; }
-    if (prep_rich(paths[0]) == FAIL || prep_h(paths[1]) == FAIL || prep_h(paths[2]) == FAIL) { hk_fail("ids-build", "could not build the case files"); return; }
+    for (int i = 0; i < NPATH; i++) { snprintf(nm, sizeof nm, "ids%d_%d.hdf", k, i); snprintf(paths[i], sizeof paths[i], "%s", hk_tmp(nm)); unlink(paths[i]); open_cnt[i] = 0; }
+    if (prep_rich(paths[0]) == FAIL || prep_h(paths[1]) == FAIL || prep_h(paths[2]) == FAIL || build_spbad(paths[4]) == FAIL) { hk_fail("ids-build", "could not build the case files"); return; }
     { /* tag 1500: ordinary, linked, linked, compressed, ordinary, chunked, compressed, ordinary, linked, chunked+compressed - every
          transition of a walk, every kind of special information */
       int32 fid = Hopen(paths[0], DFACC_RDWR, 0);
       for (int i = 0; kinds[i] && fid != FAIL; i++) { ser_len[i] = kinds[i] == 'O' ? 40 + i : SPLEN; wl_fill(ser_data[i], 64, i);
           if (mk_elem(fid, 1500, (uint16)(i + 1), kinds[i], ser_data[i], ser_len[i]) == FAIL) hk_fail("ids-build", "element %c of the series not created", kinds[i]); }
       if (fid == FAIL || Hclose(fid) == FAIL) { hk_fail("ids-build", "could not add the mixed series"); return; } }
-    nfid = naid = 0; crash_seen = 0;
+    nfid = naid = 0; crash_seen = 0; memset(x_dirty, 0, sizeof x_dirty);
+    /* E: the files Hopen must fail on are made from the bytes of the rich file when first used; the atom groups as they are now */
+    bad_tmpl_ok = dmg_load(paths[0], &bad_tmpl) == 0; memset(bad_made, 0, sizeof bad_made); gsnap(&g_base);
+    int bad_burst = hk_chance(35);   /* a case in which failing opens are frequent */
+    gsnap_t gb;
     int nops = (int)hk_range(40, 100); int orphaned = 0;
     char hb[16];
     for (int i = 0; i < nops && nfid < MAXH - 4 && naid < MAXH - 4; i++) {
         int op = (int)hk_range(0, 99);
         int nlive = 0; for (int q = 0; q < nfid; q++) nlive += f_live[q];
+        if (nlive > 0 && op < 14 && hk_chance(bad_burst ? 45 : 12)) { op_openbad(k); continue; }
+        if (nlive == 0 && hk_chance(8)) op_openbad(k);                      /* ... also with nothing else open */
         if (nlive == 0 || op < 14) {
-            int p = (int)hk_range(0, 99) < 6 ? 3 : (int)hk_range(0, 2);
+            int p = (int)hk_range(0, 99) < 6 ? 3 : hk_chance(22) ? 4 : (int)hk_range(0, 2);
             int acc; { int c = (int)hk_range(0, 99); acc = c < 45 ? DFACC_READ : c < 80 ? DFACC_RDWR : c < 88 ? DFACC_WRITE : c < 92 ? 8 : DFACC_CREATE; }
             if (p == 3 && acc != 8) acc = DFACC_READ;                       /* the missing file is only ever opened for reading */
             if (acc == DFACC_CREATE && open_cnt[p] == 0) acc = DFACC_RDWR;  /* DFACC_CREATE only where it must be refused (ALROPEN) */
+            gsnap(&gb);
             int32 id = Hopen(paths[p], acc, 0);
             printf("T ids open %d %d %d => ", p, acc, p == 3 ? 0 : 1);
-            if (id == FAIL) printf("fail\n"); else { fidv[nfid] = id; f_live[nfid] = 1; f_path[nfid] = p; open_cnt[p]++; printf("f%d\n", nfid++); }
+            if (id == FAIL) { printf("fail\n"); gcheck(&gb, "Hopen", 0, 0); if (hk_chance(40)) { t_groups(); verify_live("a failed Hopen (missing file / bad mode / DFACC_CREATE of an open path)"); } }
+            else { fidv[nfid] = id; f_live[nfid] = 1; f_path[nfid] = p; open_cnt[p]++; printf("f%d\n", nfid++); }
             continue;
         }
         if (op < 30) {          /* close */
             if (hk_chance(4) && naid > 0) { int a = pick_a(); if (a < naid && a_live[a]) { toka(hb, a); const char *tk; WRONGKIND("Hclose(access id)", Hclose(aidv[a]), tk); printf("T ids close %s => %s\n", hb, tk); } continue; }
             int f = pick_f(); tokf(hb, f);
             int owns = 0; if (f < nfid && f_live[f]) for (int q = 0; q < naid; q++) if (a_live[q]) { accrec_t *ar = HAatom_object(aidv[q]); if (ar && ar->file_id == fidv[f]) owns = 1; }
+            gsnap(&gb);
             long r = Hclose(F(f));
             printf("T ids close %s => %s\n", hb, r == FAIL ? "fail" : "ok");
+            if (r == FAIL) { gcheck(&gb, "Hclose", 0, 0); if (hk_chance(25)) verify_live("a failed Hclose"); }
             if (f < nfid && f_live[f]) {
                 filerec_t *fr = NULL; for (int q = 0; q < nfid; q++) if (q != f && f_live[q] && f_path[q] == f_path[f]) fr = HAatom_object(fidv[q]);
                 int own_h = caller_owns(f);
@@ -648,18 +969,23 @@ static void run_case(int k)
             if (hk_chance(3) && naid > 0) { int a = pick_a(); if (a < naid && a_live[a]) { toka(hb, a); const char *tk; WRONGKIND("Hstartread(access id)", Hstartread(aidv[a], 1000, 1), tk); printf("T ids startaccess %s 1 0 => %s\n", hb, tk); } continue; }
             int f = pick_f(); tokf(hb, f);
             if (f < nfid && f_path[f] == 0 && hk_chance(30)) { int r1 = hot_ref(); sp_start(f, r1, f_live[f] && hk_chance(25) && !is_chunked(r1)); continue; }
+            if (f < nfid && f_path[f] == 4 && hk_chance(55)) { op_startbad(f); continue; }
             int write = hk_chance(35); uint16 ref = (uint16)(hk_chance(80) ? hk_range(1, 2) : 9);
             int found = write ? 1 : (f < nfid && f_live[f] ? Hexist(fidv[f], 1000, ref) != FAIL : 0);
+            gsnap(&gb);
             int32 id = Hstartaccess(F(f), 1000, ref, write ? DFACC_RDWR : DFACC_READ);
             printf("T ids startaccess %s %d %d => ", hb, found, write);
-            if (id == FAIL) printf("fail\n"); else { printf("a%d\n", new_aid(id, f, 0, write)); if (!(f < nfid && f_live[f])) hk_fail("ids-stale-accepted:Hstartaccess", "Hstartaccess on a released / never issued file id succeeds"); }
+            if (id == FAIL) { printf("fail\n"); gcheck(&gb, "Hstartaccess", 0, 0); if (hk_chance(25)) verify_live("a failed Hstartaccess (missing element / no write access / stale file id)"); }
+            else { int a = new_aid(id, f, 0, write); a_tag[a] = 1000; a_r[a] = ref; printf("a%d\n", a); if (!(f < nfid && f_live[f])) hk_fail("ids-stale-accepted:Hstartaccess", "Hstartaccess on a released / never issued file id succeeds"); }
             continue;
         }
         if (op < 75) {          /* endaccess */
             if (hk_chance(4)) { int f = pick_live(f_live, nfid); if (f >= 0) { tokf(hb, f); const char *tk; WRONGKIND("Hendaccess(file id)", Hendaccess(fidv[f]), tk); printf("T ids endaccess %s => %s\n", hb, tk); } continue; }
             int a = pick_a(); toka(hb, a);
+            gsnap(&gb);
             long r = Hendaccess(A(a));
             printf("T ids endaccess %s => %s\n", hb, r == FAIL ? "fail" : "ok");
+            if (r == FAIL && !(a < naid && a_live[a])) { gcheck(&gb, "Hendaccess", 0, 0); if (hk_chance(25)) verify_live("a failed Hendaccess (released / never issued id)"); }
             if (a < naid && a_live[a]) { mark_ended(a); if (r == FAIL) { hk_stat("endaccess_failed_on_live_aid", 1); if (!orphaned) hk_fail("ids-release-failed:Hendaccess", "Hendaccess of a live access id fails although its file id was never closed"); } }
             else if (r != FAIL) hk_fail("ids-double-release:Hendaccess", "Hendaccess of a released / never issued id succeeds");
             continue;
@@ -680,12 +1006,12 @@ static void run_case(int k)
             if (!(a < naid && a_live[a]) && r != FAIL) hk_fail("ids-stale-accepted:Htell", "an inquiry on a released / never issued access id succeeds");
             continue;
         }
-        if (op < 93) { int f = pick_live(f_live, nfid); if (f >= 0) t_counts(f); continue; }
+        if (op < 93) { int f = pick_live(f_live, nfid); if (f >= 0) t_counts(f); if (hk_chance(30)) t_groups(); continue; }
         /* a block on another interface, on a live file id */
         { int f = pick_live(f_live, nfid); if (f < 0) continue; filerec_t *fr = HAatom_object(fidv[f]); int wr = fr && (fr->access & DFACC_WRITE);
           if (f_path[f] == 0 && open_cnt[0] == 1 && fr && fr->attach == 0 && hk_chance(45) && naid < MAXH - 8 && nfid < MAXH - 8) { walk_block(f); continue; }
           if (hk_chance(35)) { shared_block(); continue; }
-          if (hk_chance(30)) { run_scenario(k, (int)hk_range(0, 3)); continue; }
+          if (hk_chance(30)) { run_scenario(k, hk_chance(30) ? 4 : (int)hk_range(0, 3)); continue; }
           switch ((int)hk_range(0, 4)) { case 0: if (f_path[f] == 0) block_v(fidv[f]); break; case 1: if (f_path[f] == 0) block_gr(fidv[f]); break; case 2: if (f_path[f] == 0) block_an(fidv[f]); break;
               case 3: block_bit(fidv[f], wr); break; default: if (open_cnt[0] == 0) block_sd(k); break; } }
     }
@@ -700,9 +1026,10 @@ static void run_case(int k)
       /* file records = distinct live records; access records = live aids */
       int recs = 0; void *seen[MAXH]; for (int q = 0; q < nfid; q++) { void *o = HAatom_object(fidv[q]); if (!o) continue; int dup = 0; for (int z = 0; z < recs; z++) if (seen[z] == o) dup = 1; if (!dup) seen[recs++] = o; }
       printf("T ids live => %d,%d,%d,%d\n", lf, la, recs, la); }
+    t_groups();
     /* after the teardown a fresh open must see every file as it is on disk */
-    for (int p = 0; p < 3; p++) {
-        if (open_cnt[p] > 0) continue; /* leaked record (known defect): the path is still open */
+    for (int p = 0; p < NPATH; p++) {
+        if (p == 3 || open_cnt[p] > 0) continue; /* (open_cnt > 0: leaked record, the path is still open) */
         int32 id = Hopen(paths[p], DFACC_READ, 0); printf("T ids open %d %d 1 => ", p, DFACC_READ);
         if (id == FAIL) { printf("fail\n"); hk_fail("ids-reopen-after-teardown", "Hopen fails after every handle of the file was released"); continue; }
         fidv[nfid] = id; printf("f%d\n", nfid); int f = nfid++; f_live[f] = 1; f_path[f] = p;
@@ -715,7 +1042,10 @@ static void run_case(int k)
         fidv[nfid] = id; printf("f%d\n", nfid); f = nfid++; f_path[f] = p; tokf(hb, f); r = Hclose(id); printf("T ids close %s => %s\n", hb, r == FAIL ? "fail" : "ok");
     }
     hk_stat("ids_ops", nops); if (orphaned) hk_stat("orphaned_cases", 1);
-    if (!getenv("HK_KEEP")) { for (int i = 0; i < 4; i++) unlink(paths[i]); char ext[900]; snprintf(ext, sizeof ext, "%s.x11", paths[0]); unlink(ext); }
+    t_groups();
+    for (int kd = 0; kd < DMG_NKINDS; kd++) if (bad_made[kd] && bad_stage[kd] >= 0 && !getenv("HK_KEEP")) dmg_remove(kd, badp[kd]);
+    if (bad_tmpl_ok) { dmg_free(&bad_tmpl); bad_tmpl_ok = 0; }
+    if (!getenv("HK_KEEP")) { for (int i = 0; i < NPATH; i++) unlink(paths[i]); char ext[900]; snprintf(ext, sizeof ext, "%s.x11", paths[0]); unlink(ext); }
 }
 
 int main(int argc, char **argv) { return hk_main(argc, argv, "ids"); }
